@@ -161,12 +161,17 @@ impl<'b, 'a: 'b> FmtVisitor<'a> {
                         get_span_without_attrs(stmt.as_ast_node()),
                     );
                 } else {
+                    let skip_context_saved = self.skip_context.clone();
+                    self.skip_context.update_with_attrs(attrs);
                     let shape = self.shape();
                     let rewrite = self.with_context(|ctx| stmt.rewrite(ctx, shape));
-                    self.push_rewrite(stmt.span(), rewrite)
+                    self.push_rewrite(stmt.span(), rewrite);
+                    self.skip_context = skip_context_saved;
                 }
             }
             ast::StmtKind::MacCall(ref mac_stmt) => {
+                let skip_context_saved = self.skip_context.clone();
+                self.skip_context.update_with_attrs(&mac_stmt.attrs);
                 if self.visit_attrs(&mac_stmt.attrs, ast::AttrStyle::Outer) {
                     self.push_skipped_with_span(
                         &mac_stmt.attrs,
@@ -176,6 +181,7 @@ impl<'b, 'a: 'b> FmtVisitor<'a> {
                 } else {
                     self.visit_mac(&mac_stmt.mac, MacroPosition::Statement);
                 }
+                self.skip_context = skip_context_saved;
                 self.format_missing(stmt.span().hi());
             }
             ast::StmtKind::Empty => (),
